@@ -2,25 +2,32 @@ import Knut.Properties.C20Go3
 /-!
 # C20Go3, non-vacuity on a NON-EMPTY journal: `RetParOK` and `DayRelP` are satisfiable
 
-`C20Go3.C20_returns_every_period_process_go` quantifies over parameters `P : RetPar` with `RetParOK cur f.cfg P` and over Go days with
-`AllRel (DayRelP cur) gdays days`.  The non-vacuity example of `Properties/C20Go3.lean` is the journal without directives.  Here:
+`C20Go3.C20_returns_every_period_process_go` / `C20_returns_process_go_partial` quantify over parameters `P : RetPar` with
+`RetParOK cur f.cfg P` and over Go days with `AllRel (DayRelP cur) gdays days`.  The non-vacuity example of `Properties/C20Go3.lean` is
+the journal without directives.  Here, for `cur = fun _ => false` (no commodity tagged as a currency: `TagCurrency` has no caller):
 
-* **`exPar_ok`**: for `cur = fun _ => false` and the configuration `exCfg` (`valuation = none`), the concrete parameters `exPar pg`
-  (any Go partition `pg`) satisfy `RetParOK`.  The universally quantified fields are proved for EVERY Go state / day related to a model
-  state (`oV`, `ord`: the key list of the captured map; `oE`: the key list of the captured `values`, by `CVRel.values`; `oS`: a pair of
-  empty orders per transaction; `fuel`: vacuous, no valuation).
-* **`exDays_rel`**: a journal of two days (day 1: two `open` directives and a deposit `Equity:Equity -> Assets:Bank` of 100 CHF; day 2:
-  a purchase of 2 AAPL from `Assets:Bank` to `Assets:Portfolio`), the Go days defined as the image of the model days (`dayGo`:
-  `openGo`, `txGo`, `Performance = nil`), and `AllRel (DayRelP cur) exGDays exDays`.  (`dayGo_rel`: for every model day without
-  prices, assertions and closings.)
-* **`C20Go3_hyps_nonvacuous`** packages the two, with `exGDays ≠ []`.
+* **`genPar_ok`**: for EVERY configuration `cfg` with `valuation = none` (account and commodity filters ARBITRARY, in particular the
+  default: all `true`) and every Go partition `pg`, the concrete parameters `genPar cfg pg` satisfy `RetParOK cur cfg`.  The universally
+  quantified fields are proved for every Go state / day that stands for a model state / day:
+  `ord`, `oV`: the key list of the captured map as it stands; `fuel`: vacuous (no valuation);
+  `oE g dg`: the key list of the map of values reached by folding the TRANSLATED `ComputeValues.Posting` over the postings of the day
+  (`valsGo`; `valsGo_rel`: it stands for the model's `valuesDay`, by `ComputeValues_Posting_agrees`), so zero entries are deleted
+  exactly as the code deletes them;
+  `oS`: per transaction the commodities of its postings, each once (`dedup`; `txFlow_keys`: a commodity with a flow is the commodity
+  of a posting), the second order empty (it ranges over the internal flows, which nothing reads).
+* **`exDays_rel`**: a journal of two days (day 1: three `open` directives and a deposit `Equity:Equity -> Assets:Bank` of 100 CHF;
+  day 2: a purchase of 2 AAPL from `Assets:Bank` to `Assets:Portfolio`), the Go days DEFINED as the image of the model days (`dayGo`:
+  `openGo`, `txGo`, all `Src` nil, `Performance = nil`), and `AllRel (DayRelP cur) exGDays exDays`.  (`dayGo_rel`: for every model
+  day without prices, assertions and closings.)
+* **`C20Go3_hyps_nonvacuous`** packages the two for the default configuration `{}` (all filters `true`), with `exGDays ≠ []` and a
+  day that has a transaction.
 
-WHAT IS DEGENERATE.  `exCfg` has `accountFilter := fun _ => false`: no account is a portfolio account, so `valuesStep` and `txFlowStep`
-are the identity (`valuesDay_ex`, `txFlows_ex`), the map of values stays as it is and no transaction has a flow.  That is what makes
-`oE g dg := keys of g.values` and `oS := ([], [])` admissible without a key-set lemma for `valuesDay` / `txFlows`.  For the honest
-configuration (all filters `true`) an admissible `oE` must list the keys of the values AFTER the day's postings (zero entries deleted):
-not constructed here.  The inner hypotheses of `C20_returns_every_period_process_go` (`hds`, `hdef`, `P.part = partitionGo part`) are
-not instantiated on this journal.
+WHAT IS NOT SHOWN / RESTRICTED.  `cur` is the constant `false` (with a commodity tagged as a currency the `targets` clause of
+`OrdersOK` restricts the journals; not needed for the command line).  Only `valuation = none` (`-v` absent: the case of
+`C20_returns_every_period_process_go`); with `-v`, `FuelOK` and a `val` are needed: not constructed.  The inner hypotheses of
+`C20_returns_every_period_process_go` (`returns f ds = .ok lines` for a `ds` that builds `exDays`, `hds`, `hdef`,
+`P.part = partitionGo part`) are NOT instantiated on this journal; `genPar` takes the partition as a parameter so that
+`P.part = partitionGo part` holds by `rfl` for `pg := partitionGo part`.
 -/
 namespace Knut.C20Go3Ex
 open Knut Knut.GoSem Knut.Performance Knut.MapSum
@@ -32,70 +39,161 @@ open Knut.FactsAgree.TransAccount (accountGo)
 open Knut.FactsAgree.TransPosting (postingGo commodityGo)
 open Knut.FactsAgree.TransTransaction (txGo)
 open Knut.FactsAgree.TransCheck (openGo)
-open Knut.FactsAgree.TransPerformance (calcGo CVRel OrdersOK ckeyGo SplitOrders)
+open Knut.FactsAgree.TransPerformance (calcGo CVRel OrdersOK ckeyGo SplitOrders ComputeValues_Posting_agrees)
 
 /-- no commodity is tagged as a currency (`TagCurrency` has no caller) -/
 def cur : String → Bool := fun _ => false
 
-/-- without `-v`; DEGENERATE: no account passes the account filter -/
-def exCfg : Performance.Cfg := { valuation := none, accountFilter := fun _ => false }
+/-! ### admissible parameters for ANY `cfg` without `-v` (all filters arbitrary) -/
 
-/-- concrete parameters: the iteration orders are the key lists of the captured maps as they stand -/
-def exPar (pg : date.Partition) : RetPar :=
+/-- the translated `ComputeValues.Posting` as a step on the state (it never fails on a posting that stands for a model posting) -/
+def stepP (cfg : Performance.Cfg) (t : transaction.Transaction) (g : performance.Calculator.ComputeValues.State) (p : posting.Posting) :
+    performance.Calculator.ComputeValues.State :=
+  match performance.Calculator.ComputeValues.Posting (calcGo cur cfg) g t p with
+  | .ok (g', _) => g'
+  | _ => g
+
+/-- the state of `ComputeValues` after the postings of a day's transactions -/
+def valsGo (cfg : Performance.Cfg) (g : performance.Calculator.ComputeValues.State) (tgs : List transaction.Transaction) :
+    performance.Calculator.ComputeValues.State :=
+  tgs.foldl (fun g t => t.Postings.foldl (stepP cfg t) g) g
+
+theorem stepP_rel (cfg : Performance.Cfg) (t : transaction.Transaction) (prev : AMap Knut.Commodity Rat) :
+    ∀ (gps : List posting.Posting) (ps : List Knut.Posting), AllRel (PRel cur) gps ps →
+    ∀ (g : performance.Calculator.ComputeValues.State) (vals : AMap Knut.Commodity Rat), CVRel cur g vals prev →
+      CVRel cur (gps.foldl (stepP cfg t) g) (ps.foldl (valuesStep cfg) vals) prev := by
+  intro gps ps h
+  induction h with
+  | nil => intro g vals hr; exact hr
+  | @cons gp p gps ps hp _ ih =>
+    intro g vals hr
+    obtain ⟨g', he, hr'⟩ := ComputeValues_Posting_agrees cur cfg hr t gp.Src p
+    have hp' : postingGo cur gp.Src p = gp := hp.symm
+    rw [hp'] at he
+    have hs : stepP cfg t g gp = g' := by simp only [stepP, he]
+    simp only [List.foldl_cons, hs]
+    exact ih g' _ hr'
+
+theorem valsGo_rel (cfg : Performance.Cfg) (prev : AMap Knut.Commodity Rat) :
+    ∀ (tgs : List transaction.Transaction) (txs : List Knut.Transaction), AllRel (TRel cur) tgs txs →
+    ∀ (g : performance.Calculator.ComputeValues.State) (vals : AMap Knut.Commodity Rat), CVRel cur g vals prev →
+      CVRel cur (valsGo cfg g tgs) (valuesDay cfg vals txs) prev := by
+  intro tgs txs h
+  induction h with
+  | nil => intro g vals hr; exact hr
+  | @cons tg t tgs txs ht _ ih =>
+    intro g vals hr
+    simp only [valsGo, valuesDay, List.foldl_cons]
+    exact ih _ _ (stepP_rel cfg tg prev _ _ ht.2.2.1 g vals hr)
+
+/-- a list without repetitions of the same members -/
+def dedup {α : Type} [DecidableEq α] : List α → List α
+  | [] => []
+  | x :: l => if x ∈ dedup l then dedup l else x :: dedup l
+
+theorem mem_dedup {α : Type} [DecidableEq α] (x : α) : ∀ l : List α, x ∈ dedup l ↔ x ∈ l := by
+  intro l
+  induction l with
+  | nil => simp [dedup]
+  | cons y l ih =>
+    unfold dedup
+    by_cases hy : y ∈ dedup l
+    · simp only [hy, if_true, List.mem_cons, ih]
+      constructor
+      · exact Or.inr
+      · rintro (rfl | h)
+        · exact ih.1 hy
+        · exact h
+    · simp only [hy, if_false, List.mem_cons, ih]
+
+theorem nodup_dedup {α : Type} [DecidableEq α] : ∀ l : List α, (dedup l).Nodup := by
+  intro l
+  induction l with
+  | nil => simp [dedup]
+  | cons y l ih =>
+    unfold dedup
+    by_cases hy : y ∈ dedup l
+    · simp only [hy, if_true]; exact ih
+    · simp only [hy, if_false]; exact List.nodup_cons.2 ⟨hy, ih⟩
+
+/-- a commodity with a flow is the commodity of a posting -/
+theorem txFlow_keys (cfg : Performance.Cfg) (tg : Option (List Knut.Commodity)) (c : Knut.Commodity) :
+    ∀ (ps : List Knut.Posting) (acc : AMap Knut.Commodity Rat × Rat),
+      (AMap.find? (ps.foldl (txFlowStep cfg tg) acc).1 c).isSome → (AMap.find? acc.1 c).isSome ∨ c ∈ ps.map (·.commodity) := by
+  intro ps
+  induction ps with
+  | nil => intro acc h; exact Or.inl h
+  | cons p ps ih =>
+    intro acc h
+    rcases ih _ h with h1 | h1
+    · by_cases hc : p.commodity = c
+      · exact Or.inr (by simp [hc])
+      · left
+        revert h1
+        unfold txFlowStep
+        split
+        · exact id
+        · split
+          · exact id
+          · split
+            · exact id
+            · split
+              · simp only [AMap.find?_set, hc, if_false]; exact id
+              · exact id
+              · exact id
+    · exact Or.inr (List.mem_cons_of_mem _ h1)
+
+theorem postings_commodities : ∀ (gps : List posting.Posting) (ps : List Knut.Posting), AllRel (PRel cur) gps ps →
+    gps.map (·.Commodity) = ps.map (fun p => commodityGo cur p.commodity) := by
+  intro gps ps h
+  induction h with
+  | nil => rfl
+  | @cons gp p _ _ hp _ ih =>
+    simp only [List.map_cons, ih]
+    have : gp.Commodity = commodityGo cur p.commodity := by rw [hp]; rfl
+    rw [this]
+
+theorem orders_gen (cfg : Performance.Cfg) : ∀ (tgs : List transaction.Transaction) (txs : List Knut.Transaction),
+    AllRel (TRel cur) tgs txs →
+    AllRel (OrdersOK cur cfg) (tgs.map (fun t => ((dedup (t.Postings.map (·.Commodity)), []) : SplitOrders))) txs := by
+  intro tgs txs h
+  induction h with
+  | nil => exact .nil
+  | @cons tg t _ _ ht _ ih =>
+    refine .cons ⟨nodup_dedup _, ?_, ?_⟩ ih
+    · intro c hc
+      rcases txFlow_keys cfg _ c t.postings ([], 0) hc with h0 | h0
+      · simp at h0
+      · show commodityGo cur c ∈ dedup (tg.Postings.map (·.Commodity))
+        rw [mem_dedup, postings_commodities _ _ ht.2.2.1]
+        obtain ⟨p, hp, rfl⟩ := List.mem_map.1 h0
+        exact List.mem_map.2 ⟨p, hp, rfl⟩
+    · intro l _ c _; rfl
+
+/-- parameters for an arbitrary configuration: `oE` lists the keys of the values after the day's postings (computed by the translated
+`ComputeValues.Posting` itself), `oS` the commodities of the transaction's postings, each once -/
+def genPar (cfg : Performance.Cfg) (pg : date.Partition) : RetPar :=
   { val := none,
     ext1 := fun a => accountGo (valuationAccountFor ⟨a.segments⟩),
-    cg := calcGo cur exCfg,
+    cg := calcGo cur cfg,
     part := pg,
     ord := fun g _ => g.quantities.map Prod.fst,
     fuel := fun _ _ => 0,
     oV := fun g _ => g.quantities.map Prod.fst,
-    oE := fun g _ => g.values.map Prod.fst,
-    oS := fun _ dg => dg.Transactions.map (fun _ => ([], [])) }
+    oE := fun g dg => (valsGo cfg g dg.Transactions).values.map Prod.fst,
+    oS := fun _ dg => dg.Transactions.map (fun t => (dedup (t.Postings.map (·.Commodity)), [])) }
 
-theorem isPortfolio_ex (a : Knut.Account) : isPortfolio exCfg a = false := by
-  simp [isPortfolio, exCfg]
-
-theorem valuesStep_ex (vals : AMap Knut.Commodity Rat) (p : Knut.Posting) : valuesStep exCfg vals p = vals := by
-  simp [valuesStep, isPortfolio_ex]
-
-theorem foldl_id {α β : Type} (f : α → β → α) (h : ∀ a b, f a b = a) : ∀ (l : List β) (a : α), l.foldl f a = a := by
-  intro l
-  induction l with
-  | nil => intro a; rfl
-  | cons b l ih => intro a; simp only [List.foldl_cons, h, ih]
-
-/-- DEGENERATE: the values do not move -/
-theorem valuesDay_ex (vals : AMap Knut.Commodity Rat) (txs : List Knut.Transaction) : valuesDay exCfg vals txs = vals := by
-  unfold valuesDay
-  exact foldl_id _ (fun v t => foldl_id _ valuesStep_ex _ _) _ _
-
-/-- DEGENERATE: no transaction has a flow -/
-theorem txFlows_ex (t : Knut.Transaction) : txFlows exCfg t = ([], 0) := by
-  unfold txFlows
-  exact foldl_id _ (fun acc p => by simp [txFlowStep, isPortfolio_ex]) _ _
-
-theorem orders_ex : ∀ (tgs : List transaction.Transaction) (txs : List Knut.Transaction), AllRel (TRel cur) tgs txs →
-    AllRel (OrdersOK cur exCfg) (tgs.map (fun _ => (([], []) : SplitOrders))) txs := by
-  intro tgs txs h
-  induction h with
-  | nil => exact .nil
-  | cons _ _ ih =>
-    refine .cons ⟨List.nodup_nil, ?_, ?_⟩ ih
-    · intro c hc; rw [txFlows_ex] at hc; simp at hc
-    · intro l _ c _; rfl
-
-/-- **the parameters are admissible** -/
-theorem exPar_ok (pg : date.Partition) : RetParOK cur exCfg (exPar pg) where
-  val := rfl
+/-- **admissible parameters exist for EVERY configuration without `-v`** (arbitrary account and commodity filters) -/
+theorem genPar_ok (cfg : Performance.Cfg) (hv : cfg.valuation = none) (pg : date.Partition) : RetParOK cur cfg (genPar cfg pg) where
+  val := by rw [hv]; rfl
   ext1 := fun _ => rfl
   cg := rfl
   ord := fun _ _ _ hk => mem_keys_of_find? hk
-  fuel := fun v hv => by cases hv
+  fuel := fun v h => by rw [hv] at h; cases h
   oV := fun _ _ _ hk => mem_keys_of_find? hk
   oE := by
-    intro g dg vals prev txs hcv _
-    have hm := hcv.values
-    rw [valuesDay_ex]
+    intro g dg vals prev txs hcv htx
+    have hm := (valsGo_rel cfg prev _ _ htx g vals hcv).values
     refine ⟨hm.gnodup, ?_, ?_⟩
     · intro k hk
       have hs := find?_isSome_of_mem_keys hk
@@ -104,7 +202,7 @@ theorem exPar_ok (pg : date.Partition) : RetParOK cur exCfg (exPar pg) where
     · intro c hc
       rw [← hm.lookup c] at hc
       exact mem_keys_of_find? hc
-  oS := fun _ dg txs h => orders_ex dg.Transactions txs h
+  oS := fun _ dg txs h => orders_gen cfg dg.Transactions txs h
 
 /-! ### the journal -/
 
@@ -148,11 +246,12 @@ theorem exGDays_ne : exGDays ≠ [] := by simp [exGDays, exDays]
 example : (exGDays.map (fun d => d.Transactions.length)) = [1, 1] := by decide
 
 /-- **the hypotheses `RetParOK` and `DayRelP` of `C20Go3.C20_returns_every_period_process_go` /
-`C20_returns_process_go_partial` are satisfiable together on a non-empty journal** (with the degenerate account filter of `exCfg`) -/
+`C20_returns_process_go_partial` are satisfiable together on a non-empty journal**, for the default configuration (all filters `true`,
+no `-v`) -/
 theorem C20Go3_hyps_nonvacuous : ∃ (cfg : Performance.Cfg) (P : RetPar) (gdays : List journal.Day) (days : List Knut.Day),
-    cfg.valuation = none ∧ RetParOK cur cfg P ∧ AllRel (DayRelP cur) gdays days ∧ gdays ≠ [] ∧
+    cfg = {} ∧ cfg.valuation = none ∧ RetParOK cur cfg P ∧ AllRel (DayRelP cur) gdays days ∧ gdays ≠ [] ∧
     (∃ d ∈ days, d.transactions ≠ []) :=
-  ⟨exCfg, exPar GoZero.zero, exGDays, exDays, rfl, exPar_ok _, exDays_rel, exGDays_ne,
+  ⟨{}, genPar {} GoZero.zero, exGDays, exDays, rfl, rfl, genPar_ok {} rfl _, exDays_rel, exGDays_ne,
     ⟨_, List.mem_cons_self, by simp⟩⟩
 
 end Knut.C20Go3Ex
